@@ -30,8 +30,9 @@ type MPart struct {
 	From    int    `json:"from"`
 	To      int    `json:"to"`
 	Src     string `json:"src"`  // env | property
-	Name    string `json:"name"` // variable name / property key
-	File    string `json:"file,omitempty"`
+	Name    string `json:"name"`           // variable name / property key; spelling drawn by drawName (names_test.go)
+	File    string `json:"file,omitempty"` // path below the temp dir, drawn by drawPropFile
+	Pad     string `json:"pad,omitempty"`  // padding inside the braces
 	Missing string `json:"missing,omitempty"` // "" = resolves; unset_env | missing_key | missing_file
 }
 
@@ -56,9 +57,9 @@ const (
 
 func (p MPart) placeholder() string {
 	if p.Src == "env" {
-		return "${env:" + p.Name + "}"
+		return spell("env", p.Name, p.Pad)
 	}
-	return "${property:" + filepath.Join(propDir, p.File) + "#" + p.Name + "}"
+	return spell("property", filepath.Join(propDir, filepath.FromSlash(p.File))+"#"+p.Name, p.Pad)
 }
 
 func genMulti(t *rapid.T) MultiCase {
@@ -161,12 +162,13 @@ func genMulti(t *rapid.T) MultiCase {
 		part := MPart{From: cuts[2*i], To: cuts[2*i+1], Src: rapid.SampledFrom([]string{"env", "env", "property"}).Draw(t, "src")}
 		// distinct names per part (index-suffixed): two parts never name the same variable with different contents
 		if part.Src == "env" {
-			part.Name = fmt.Sprintf("%s_%d", rapid.SampledFrom(envNames).Draw(t, "name"), i)
+			part.Name = fmt.Sprintf("%s_%d", drawName(t, envNames, "name"), i)
 		} else {
-			part.Name = fmt.Sprintf("%s%d", rapid.SampledFrom(propKeys).Draw(t, "key"), i)
+			part.Name = fmt.Sprintf("%s%d", drawName(t, propKeys, "key"), i)
 			// one file shared by the parts, or a file of its own
-			part.File = rapid.SampledFrom([]string{"multi.properties", "multi.properties", fmt.Sprintf("m%d.prop", i)}).Draw(t, "file")
+			part.File = drawPropFile(t, []string{"multi.properties", "multi.properties", fmt.Sprintf("m%d.prop", i)}, "file")
 		}
+		part.Pad = drawPad(t)
 		c.Parts = append(c.Parts, part)
 	}
 	// which placeholders name nothing: none (2 of 5), else one at a drawn place (first / middle / last
@@ -194,7 +196,8 @@ func genMulti(t *rapid.T) MultiCase {
 				part.Missing = pUnsetEnv
 			} else if rapid.Bool().Draw(t, "nofile") {
 				part.Missing = pMissingFile
-				part.File = fmt.Sprintf("absent%d.prop", j) // a file no resolving part lives in
+				// a file no resolving part lives in
+				part.File = rapid.SampledFrom([]string{"", "", "no such dir/", "dir with blank/"}).Draw(t, "absentDir") + fmt.Sprintf("absent%d.prop", j)
 			} else {
 				part.Missing = pMissingKey
 			}
@@ -222,7 +225,13 @@ func (c MultiCase) install(text string) (func(), error) {
 			envSet = append(envSet, p.Name)
 			continue
 		}
-		path := filepath.Join(propDir, p.File)
+		path := filepath.Join(propDir, filepath.FromSlash(p.File))
+		if p.Missing != pMissingFile {
+			var err error
+			if path, err = propPath(p.File); err != nil {
+				return nil, err
+			}
+		}
 		switch p.Missing {
 		case pMissingFile:
 			absent = append(absent, path)
@@ -303,7 +312,16 @@ func checkMulti(c MultiCase, o *vf.Obs) error {
 	var sb strings.Builder
 	at := 0
 	firstMissing, missing, srcs := -1, 0, map[string]bool{}
+	spelling := map[string]bool{}
 	for i, p := range c.Parts {
+		how, file := "resolves", p.File
+		if p.Missing != "" {
+			how = "names_nothing"
+		}
+		if p.Src == "env" {
+			file = ""
+		}
+		addSpelling(spelling, p.Src, p.Name, file, p.Pad, how, f.Class != cg.CString && f.Class != cg.CStrList && f.Class != cg.CStrMap)
 		if p.From < at || p.To < p.From || p.To > len(text) {
 			return fmt.Errorf("bad part %d (%d:%d) of %q", i, p.From, p.To, text)
 		}
@@ -333,6 +351,7 @@ func checkMulti(c MultiCase, o *vf.Obs) error {
 		}
 	}
 	o.Class("pos:"+c.Pos, fmt.Sprintf("placeholders:%d", len(c.Parts)), "class:"+f.Class, "comp:"+s.Comp.Label(), depthClass(s.Depth))
+	recordSpelling(o, spelling)
 	switch {
 	case len(srcs) == 2:
 		o.Class("srcs:mixed")
